@@ -805,6 +805,9 @@ pub fn check_wellformed(
     pp: &PPCfg,
     out: &Compiled,
     d: &crate::txread::DTx,
+    // plutus languages of the scripts the transaction itself attaches (language ids 0..2); empty:
+    // it attaches none (the scripts that run sit in reference inputs)
+    attached: &[u8],
     ctx: &str,
 ) {
     if let Err(e) = crate::txread::pallas_accepts(&out.payload) {
@@ -835,9 +838,14 @@ pub fn check_wellformed(
         (true, None) => rep.violate("C10", "M3-sdh", "missing", format!("{ctx}: redeemers present but no script_data_hash")),
         (false, Some(_)) => rep.violate("C10", "M3-sdh", "spurious", format!("{ctx}: script_data_hash present but no redeemers")),
         (true, Some(hh)) => {
+            // the language view is that of the scripts that run: the attached witnesses' language
+            // (several languages: any one of them is accepted here), Plutus V3 when none is attached
+            // (the tree's stated default for scripts referenced rather than attached) - never the
+            // language of a script the transaction merely publishes
+            let candidates: Vec<u8> = if attached.is_empty() { vec![2] } else { attached.to_vec() };
             let mut ok = false;
-            for v in 0..3u8 {
-                if pp.cost_models[v as usize] && &crate::txread::script_data_hash(d, v, &cost_model(v, pp.cm_salt)) == hh {
+            for v in candidates {
+                if v < 3 && pp.cost_models[v as usize] && &crate::txread::script_data_hash(d, v, &cost_model(v, pp.cm_salt)) == hh {
                     ok = true;
                 }
             }
